@@ -114,7 +114,11 @@ func (i *interpreter) jsonDecode(raw []byte, t types.Type, old value) (value, er
 			m = i.prog.MethodValue(sel)
 		}
 	}
-	if m != nil && trimmed != "null" {
+	// encoding/json hands a JSON null to the UnmarshalJSON of a non-pointer
+	// destination too (only settable pointers, maps, slices and interfaces are
+	// set to nil without a call); a pointer type never gets here because its
+	// pointer has no such method.
+	if m != nil {
 		{
 			// a type with its own UnmarshalJSON (e.g. geom.Geometry inside a Feature)
 			var cell value = zero(t)
